@@ -114,6 +114,7 @@ class Recording:
         self.sops = []             # g<i> / g- / p<i>
         self.scops = []            # e<n> / x / r<n>
         self.cleared = 0
+        self.reader_exit = False
         self.hits = 0
 
     # -- reader facts --------------------------------------------------------------
@@ -221,6 +222,11 @@ def observe(rec):
             rec.sops.append("g-")
             if rec.blank_eof is None:
                 rec.blank_eof = rec.is_blank()
+            raise
+        except SystemExit:
+            # the READER ended the process (its error() calls sys.exit, F-C06-4): the item
+            # stream is cut in the middle of the parse, outside what the block model describes
+            rec.reader_exit = True
             raise
         rec.sops.append("g%d" % rec.see(item))
         return item
@@ -396,6 +402,11 @@ def check_source(model, src, std="f2008", ignore_comments=True, process_directiv
     With want_info=True returns (disagreement-or-None, info dict)."""
     rec, outcome, tree, forest, chain = run_real(
         src, std, ignore_comments, process_directives, free_form)
+    if rec.reader_exit:
+        info = {"outcome": outcome, "ghost": [], "classes": collections.Counter(), "queries": len(rec.queries), "hits": rec.hits,
+                "items": len(rec.items), "linecount": rec.linecount, "chain": chain, "forest": forest,
+                "names": rec.names.names, "tree": tree, "rec": rec, "skipped": "reader-exit"}
+        return (None, info) if want_info else None
     reply = model.ask(*model_request(rec, std, process_directives))
     (m_out, m_tree, m_queries, m_sops, m_scops, m_forest, m_chain, m_pulled, m_ghost,
      m_missing) = reply
